@@ -36,6 +36,9 @@ def merge_cases(draw, max_chroms=3, max_bins=5):
     support = draw(st.sampled_from(["overlapping", "overlapping", "identical", "disjoint", "with-empty"]))
     inputs = []
     count_dtypes = [draw(st.sampled_from(["int32", "int32", "int64", "float64"])) for _ in range(k)]
+    # the extra value column: dyadic floats, or 64-bit integers far beyond 2**53 (a detour through float64 would show)
+    x_kind = draw(st.sampled_from(["dyadic", "dyadic", "bigint"]))
+    xval = gen.DYADIC if x_kind == "dyadic" else st.integers(2**57, 2**58).map(lambda v: v | 1)
     for t in range(k):
         if support == "identical" or not coords:
             sel = list(coords)
@@ -48,7 +51,7 @@ def merge_cases(draw, max_chroms=3, max_bins=5):
                 sel = []
         cnt = {"int32": st.integers(1, 1000), "int64": st.one_of(st.integers(1, 1000), st.integers(2**31, 2**40)),
                "float64": gen.DYADIC.filter(lambda v: v > 0)}[count_dtypes[t]]
-        vals = draw(st.lists(st.tuples(cnt, gen.DYADIC), min_size=len(sel), max_size=len(sel)))
+        vals = draw(st.lists(st.tuples(cnt, xval), min_size=len(sel), max_size=len(sel)))
         inputs.append([[c[0], c[1], v[0], v[1]] for c, v in zip(sel, vals)])
     cols = draw(st.sampled_from([None, None, ["count"], ["count", "x"], ["x"], ["count", "x"], ["x", "count"]]))
     agg_count = draw(st.sampled_from(["sum", "sum", "min", "max", "count", "range"]))
@@ -64,7 +67,7 @@ def merge_cases(draw, max_chroms=3, max_bins=5):
             "agg_count": agg_count, "agg_x": agg_x, "mergebuf": draw(st.sampled_from([1, 2, 3, 7, 50, 10**6])),
             "order": list(draw(st.permutations(leaves))), "tree": tree,
             "count_dtypes": count_dtypes, "via": draw(st.sampled_from(["api", "api", "cli"])),
-            "support": support,
+            "support": support, "x_kind": x_kind,
             # where the inputs live: one file each, or all as groups of ONE file (as the chunks of an unordered load do)
             "same_file": draw(st.integers(0, 3)) == 0}
 
@@ -76,7 +79,8 @@ def _make_inputs(ctx, case, work):
     for t, rows in enumerate(case["inputs"]):
         p = os.path.join(work, "ins.cool") + f"::/g{t}" if case.get("same_file") else os.path.join(work, f"in{t}.cool")
         call("create input", create_from_model, p, case["bt"], rows, case["symmetric"], cols=("count", "x"),
-             dtypes={"count": np.dtype(case["count_dtypes"][t])}, h5opts={"compression": None},
+             dtypes={"count": np.dtype(case["count_dtypes"][t]), **({"x": np.dtype("int64")} if case.get("x_kind") == "bigint" else {})},
+             h5opts={"compression": None},
              **({"mode": "a"} if case.get("same_file") else {}))
         uris.append(p)
     return uris
@@ -140,6 +144,9 @@ def check_merge(case, ctx: Ctx):
             want_dt = str(np.result_type(*[np.dtype(d) for d in case["count_dtypes"]]))
             got_dt = str(clr.pixels()[0:0]["count"].dtype)
             check(got_dt == want_dt, f"merged count column stored as {got_dt}, the inputs' common type is {want_dt}")
+        if "x" in cols and case.get("x_kind") == "bigint" and aggs["x"] in ("sum", "max"):
+            got_xdt = str(clr.pixels()[0:0]["x"].dtype)
+            check(got_xdt == "int64", f"merged column x stored as {got_xdt}; every input stores it as int64")
         check(model.read_bins(clr) == model.bins_rows(bt), "merged bin table differs")
         check(clr.storage_mode == ("symmetric-upper" if symmetric else "square"), "storage mode not propagated")
 
@@ -168,7 +175,7 @@ def check_merge(case, ctx: Ctx):
             seen[(r[0], r[1])] = seen.get((r[0], r[1]), 0) + 1
     nt = len(case["inputs"]) >= 2 and any(v >= 2 for v in seen.values()) and any(v == 1 for v in seen.values())
     ctx.record(case, nt, ["merge", f"k={len(case['inputs'])}", "support=" + case["support"], "agg=" + case["agg_count"],
-                          "cols=" + "+".join(cols), f"mergebuf={case['mergebuf']}", "sym" if symmetric else "square", "via=" + case.get("via", "api"),
+                          "cols=" + "+".join(cols), f"mergebuf={case['mergebuf']}", "sym" if symmetric else "square", "x=" + case.get("x_kind", "dyadic"), "via=" + case.get("via", "api"),
                           "all-empty" if not seen else "has-data"])
 
 
